@@ -210,9 +210,16 @@ ReuseBase(p) == B(p[1], p[2], p[1] + 4, p[2] + 4)
 ReusePosCases ==
     {[fam |-> "rel", form |-> "reusepos", tkind |-> tk, w |-> sz[1], h |-> sz[2], x |-> p[1], y |-> p[2], where |-> wh,
       anchor |-> an, via |-> via, exp |-> PlaceAt(p, an, sz[1], sz[2])] :
-        tk \in {"rect", "circle", "ellipse", "g", "symbol"}, sz \in {<<8, 8>>, <<8, 12>>},
+        \* (a line keeps its direction, a text has only its anchor: both are moved as they are;
+        \* "linerev" is the line drawn from the bottom-right to the top-left)
+        tk \in {"rect", "circle", "ellipse", "g", "symbol", "line", "linerev"}, sz \in {<<8, 8>>, <<8, 12>>},
         p \in {<<0, 0>>, <<20, -12>>, <<-16, 4>>}, wh \in {"specs", "defs", "inline-before", "inline-after"},
         an \in {"tl", "c", "br", "t"}, via \in {"abs", "loc"}}
+    \cup
+    {[fam |-> "rel", form |-> "reusepos", tkind |-> "text", w |-> 0, h |-> 0, x |-> p[1], y |-> p[2], where |-> wh,
+      anchor |-> "tl", via |-> via, exp |-> B(p[1], p[2], p[1], p[2])] :
+        \* (a text placed AT A LOCATION of another element is a label of that element - another rule)
+        p \in {<<0, 0>>, <<20, -12>>, <<-16, 4>>}, wh \in {"specs", "inline-before", "inline-after"}, via \in {"abs"}}
     \cup
     \* placed along ONE axis only (x without y, y without x): the other stays where the template is
     {[fam |-> "rel", form |-> "reusepos", tkind |-> tk, w |-> sz[1], h |-> sz[2], x |-> p[1], y |-> p[2], where |-> wh,
@@ -226,7 +233,8 @@ ReusePosCases ==
     \cup
     {[fam |-> "rel", form |-> "reusepos", tkind |-> tk, w |-> sz[1], h |-> sz[2], x |-> p[1], y |-> p[2], where |-> wh,
       anchor |-> d, via |-> "dir", exp |-> PlaceDir(ReuseBase(p), d, 4, sz[1], sz[2])] :
-        tk \in {"rect", "circle", "ellipse", "g", "symbol"}, sz \in {<<8, 8>>, <<8, 12>>},
+        \* ("...-param": the template's size is given by variables which the reuse element sets)
+        tk \in {"rect", "circle", "ellipse", "g", "symbol", "line", "rect-param", "ellipse-param", "line-param"}, sz \in {<<8, 8>>, <<8, 12>>},
         p \in {<<0, 0>>, <<20, -12>>}, wh \in {"specs", "defs", "inline-before", "inline-after"},
         d \in {"h", "H", "v", "V"}}
 
@@ -429,15 +437,20 @@ ItemKinds == {"rect", "circle", "line", "box", "text", "point", "defs", "shapete
               \* the same rect rendered from inside a control element or a plain container
               "inif", "inloop", "infor", "ing", "ina", "ifoff", "loop0",
               "clipline",      \* a horizontal line clipped to a square at its start: a box without area
-              "gflip", "gflipx"}   \* mirrored: <g transform="scale(-1)">, <g transform="scale(-1 1)">
+              "gflip", "gflipx",   \* mirrored: <g transform="scale(-1)">, <g transform="scale(-1 1)">
+              "gtransvar",         \* <g transform="translate($tv)">: the transform given by a variable
+              "textdxy", "textloc"} \* standalone text moved by text-dxy="4 -2" / by text-loc="br" (offset 1)
 ItemBoxes == {B(2, 6, 18, 14), B(-22, -9, -6, 7), B(40, 1, 47, 30)}
 Counts(k) == k \in {"rect", "circle", "line", "box", "text", "gtrans", "gscale", "shapetext", "usex", "usey", "usexy",
-                     "polyline", "path", "nestedsvg", "gnested", "clip", "reuse", "inif", "inloop", "infor", "ing", "ina", "clipline", "gflip", "gflipx"}
+                     "polyline", "path", "nestedsvg", "gnested", "clip", "reuse", "inif", "inloop", "infor", "ing", "ina", "clipline", "gflip", "gflipx", "gtransvar", "textdxy", "textloc"}
 \* ("ifoff": inside <if test="0">, "loop0": inside <loop count="0"> - never rendered, adds nothing)
 \* the geometry an item contributes, given its base box
 Contribution(k, b) ==
     CASE k = "text" -> B(b.x1, b.y1, b.x1, b.y1)                       \* standalone text: its anchor point
-      [] k = "gtrans" -> Shift(b, 12, -8)                               \* <g transform="translate(3 -2)">
+      [] k \in {"gtrans", "gtransvar"} -> Shift(b, 12, -8)             \* <g transform="translate(3 -2)">
+      \* a standalone text counts by its anchor AS WRITTEN OUT: after text-dxy / text-loc moved it
+      [] k = "textdxy" -> B(b.x1 + 16, b.y1 - 8, b.x1 + 16, b.y1 - 8)
+      [] k = "textloc" -> B(b.x1 + 4, b.y1 + 4, b.x1 + 4, b.y1 + 4)
       [] k = "gscale" -> B(2 * b.x1, 2 * b.y1, 2 * b.x2, 2 * b.y2)       \* <g transform="scale(2)">
       [] k = "usex" -> Shift(b, 80, 0)                                   \* <use href x="20">
       [] k = "usey" -> Shift(b, 0, -40)                                  \* <use href y="-10">
